@@ -31,22 +31,46 @@ Example C07_repaired_witness :
   /\ PrimFloat.leb (fabs (PrimFloat.sub (F_len F_lo) F_s))
                    (PrimFloat.mul 4 (ulp_of 0x1.86ap+17%float)) = true.
 Proof. exact (conj F_run_repaired F_repaired_value_ok). Qed.
-(* repaired variant, any carrier: returns (never MaxIts) within mu+1
-   iterations for any measure mu that decreases when the state changes *)
+(* repaired variant (C07-ilength-stall-exit: `t == t_lower or t == t_upper`
+   tested before the re-assignment), any carrier: never MaxIts within mu+1
+   iterations, for any measure mu that decreases while the midpoint is strictly
+   inside (for binary64: the number of floats between the bounds) *)
 Theorem C07_returns_partial : forall {K} (N : Num K) (len : K -> K) (s s_tol : K) (mu : K -> K -> nat),
   (forall x, eqb N x x = true) ->
-  (forall lo hi, midpt N lo hi <> lo -> (mu (midpt N lo hi) hi < mu lo hi)%nat) ->
-  (forall lo hi, midpt N lo hi <> hi -> (mu lo (midpt N lo hi) < mu lo hi)%nat) ->
+  (forall lo hi, midpt N lo hi <> lo -> midpt N lo hi <> hi -> (mu (midpt N lo hi) hi < mu lo hi)%nat) ->
+  (forall lo hi, midpt N lo hi <> lo -> midpt N lo hi <> hi -> (mu lo (midpt N lo hi) < mu lo hi)%nat) ->
   forall fuel lo hi, (mu lo hi < fuel)%nat -> bisect N true s s_tol len fuel lo hi <> EMaxIts.
 Proof. intros K N len s s_tol mu. exact (repaired_returns N len s s_tol mu). Qed.
+(* in a stalled state the repaired loop returns the midpoint at once *)
+Theorem C07_stall_repaired_returns : forall {K} (N : Num K) (len : K -> K) (s s_tol lo hi : K),
+  stalled N len s s_tol lo hi -> (forall x, eqb N x x = true) ->
+  forall fuel, bisect N true s s_tol len (S fuel) lo hi = IStall (midpt N lo hi).
+Proof. intros K N. exact (stall_repaired_returns N). Qed.
 
-(* Path branch, binary64: for s on a segment boundary the segment search hands
-   the segment an s - lsum that exceeds the segment's length by one ulp:
-   ValueError although 0 <= s <= L (with or without the repaired exit test) *)
+(* Path branch, binary64, code without the clamp (prep = false): for s on a
+   segment boundary the segment search hands the segment an s - lsum that exceeds
+   the segment's length by one ulp: ValueError although 0 <= s <= L *)
 Example C07_path_boundary_refuted : forall rep t2T,
   PrimFloat.leb 0 P_s && PrimFloat.leb P_s P_L = true
-  /\ inv_arclength_path NumF rep t2T P_segs P_L P_s F_tol 10000 = EValueError.
+  /\ inv_arclength_path NumF rep false t2T P_segs P_L P_s F_tol 10000 = EValueError.
 Proof. intros. exact (conj P_s_inside (P_path_valueerror rep t2T)). Qed.
+(* repaired (C07-path-ilength-inner-range, prep = true): the same call returns *)
+Example C07_path_boundary_repaired_witness : forall rep t2T,
+  inv_arclength_path NumF rep true t2T P_segs P_L P_s F_tol 10000 = IRet (t2T 1%nat 1%float).
+Proof. exact P_path_repaired. Qed.
+(* repaired Path branch, any carrier whose comparisons satisfy the four order
+   facts (true in R and for non-NaN binary64): no ValueError / AssertionError from
+   the segment search, for every s and every list of positive-length segments *)
+Theorem C07_path_total_partial : forall {K} (N : Num K),
+  (forall x, leb N x x = true) ->
+  (forall x y, ltb N y x = false -> leb N x y = true) ->
+  (forall x y, ltb N x y = true -> leb N x y = true) ->
+  (forall a b, leb N a b = true -> leb N (zero N) (sub N b a) = true) ->
+  forall rep t2T s s_tol maxits segs k lsum,
+  Forall (fun p : @pseg K => ltb N (zero N) (snd p) = true) segs ->
+  path_search N rep true t2T segs k lsum s s_tol maxits <> EValueError /\
+  path_search N rep true t2T segs k lsum s s_tol maxits <> EAssert.
+Proof. intros K N. exact (path_repaired_total N). Qed.
 
 (* ---------------- over R (both variants: rep arbitrary) ---------------- *)
 Local Open Scope R_scope.
@@ -98,10 +122,11 @@ Theorem C07_monotone_line : forall rep is_line len L s_tol maxits, 0 < L ->
             /\ inv_arclength_seg NumR rep is_line len L s' s_tol maxits = IRet t' /\ t <= t'.
 Proof. exact inv_line_monotone. Qed.
 
-(* Path: the result is t2T k (result on segment k at s - (l_0 + ... + l_{k-1})),
-   k the first segment whose cumulative interval contains s *)
-Theorem C07_path : forall rep t2T s s_tol maxits (segs : list (@pseg R)) k0 lsum,
-  let r := path_search NumR rep t2T segs k0 lsum s s_tol maxits in
+(* Path (both variants of the clamp: over R it is the identity): the result is
+   t2T k (result on segment k at s - (l_0 + ... + l_{k-1})), k the first segment
+   whose cumulative interval contains s *)
+Theorem C07_path : forall rep prep t2T s s_tol maxits (segs : list (@pseg R)) k0 lsum,
+  let r := path_search NumR rep prep t2T segs k0 lsum s s_tol maxits in
   (exists j p, nth_error segs j = Some p /\
      let c := cumL segs lsum j in
      c <= s <= c + seg_L p /\
@@ -114,7 +139,12 @@ Theorem C07_path : forall rep t2T s s_tol maxits (segs : list (@pseg R)) k0 lsum
          end)
   \/ ((forall i q, nth_error segs i = Some q ->
                    ~ (cumL segs lsum i <= s <= cumL segs lsum i + seg_L q)) /\ r = IRet 1).
-Proof. intros rep t2T s s_tol maxits. exact (path_search_spec rep t2T s s_tol maxits). Qed.
+Proof. intros rep prep t2T s s_tol maxits. exact (path_search_spec rep prep t2T s s_tol maxits). Qed.
+Theorem C07_path_total : forall rep t2T s s_tol maxits (segs : list (@pseg R)) k lsum,
+  Forall (fun p : @pseg R => 0 < snd p) segs ->
+  path_search NumR rep true t2T segs k lsum s s_tol maxits <> EValueError /\
+  path_search NumR rep true t2T segs k lsum s s_tol maxits <> EAssert.
+Proof. exact path_repaired_total_R. Qed.
 
 (* non-vacuity over R: len t = 10 t, s = 3 — the bisection returns a t with
    |10 t - 3| < 1e-3 within 16 iterations *)
@@ -130,7 +160,10 @@ Print Assumptions C07_adjacent_midpoint.
 Print Assumptions C07_stall_refuted_witness.
 Print Assumptions C07_repaired_witness.
 Print Assumptions C07_returns_partial.
+Print Assumptions C07_stall_repaired_returns.
 Print Assumptions C07_path_boundary_refuted.
+Print Assumptions C07_path_boundary_repaired_witness.
+Print Assumptions C07_path_total_partial.
 Print Assumptions C07_bisect_invariant.
 Print Assumptions C07_result.
 Print Assumptions C07_no_stall_over_R.
@@ -140,3 +173,4 @@ Print Assumptions C07_range.
 Print Assumptions C07_monotone.
 Print Assumptions C07_monotone_line.
 Print Assumptions C07_path.
+Print Assumptions C07_path_total.
